@@ -263,3 +263,6 @@ def check(facts, rep, tier, cfg):
             k6 += 1
             rep.bad("C10.R6", v["key"].split("/", 1)[1], v["where"], v["msg"])
     rep.floor("C10.R6", "inbound queue constructions", k6, 1)
+    # ---- R7 after an invalid frame the teardown cannot be held up by a Connect still buffered behind it
+    import rules_c07 as _c07
+    _c07.check_handoff(facts, rep, crate, "C10.R7")
